@@ -193,6 +193,13 @@ func checkC19(c *Ctx) {
 		[]ValAssume{{Name: "h.length", Match: fieldRead("length"), Val: latInt(4)}}, true)
 	c.evalAcceptRule(p, "C19.encode", "sumvec: wrong measurement length rejected", p.Func("vdaf/prio3/sumvec", "flpSumVec", "Encode"), map[string]lat{"measurement": latSliceLen(3)},
 		[]ValAssume{{Name: "s.length", Match: fieldRead("length"), Val: latInt(4)}}, false)
+	// field elements are kept in Montgomery form: an integer enters the field only through the converting
+	// setter, so the generic inversion of an integer is preceded by the conversion
+	for _, fp := range []string{"fp64", "fp128"} {
+		pk := "vdaf/prio3/arith/" + fp
+		c.orderRule(p, "C19.encode", "the integer is converted into the field (Montgomery form) before it is inverted", p.Func(pk, "Fp", "InvUint64"),
+			"call of Fp.SetUint64 / toMont", p.isCallTo(-1, nil, "(*"+pk+".Fp).SetUint64", "(*"+pk+".Fp).toMont"), "call of Fp.Inv", p.isCallTo(-1, nil, "(*"+pk+".Fp).Inv"))
+	}
 	// FLP decision: accepts only if the circuit output is zero AND the gadget test holds (each alone must
 	// suffice to reject), for every instantiation of the generic proof system
 	{
